@@ -6,6 +6,7 @@ decremented after its declaration keeps its initial upper bound)."""
 from model import strip, dstr, const_value, walk
 
 INF = float('inf')
+_VISITING = set()
 
 # library calls whose result is bounded by one of their arguments (index of that argument);
 # snprintf / vsnprintf are deliberately absent: they return the length the text *would* have had
@@ -66,34 +67,49 @@ def _b(f, ev, facts, d, depth):
     if k == 'var':
         if d.get('tk') == 'uint' or (d.get('ty') or '').startswith(('unsigned', 'size_t', 'uint')):
             lo = max(lo, 0)
-        if depth < 4 and d.get('vk') == 'local':
-            init = f.single_def(d['n'])
-            if init is not None:
-                l2, h2 = _b(f, ev, facts, init, depth + 1)
-                lo, hi = max(lo, l2), min(hi, h2)
-            else:
-                # monotone: declaration + only decrements  => initial upper bound persists
+        if depth < 6 and d.get('vk') in ('local',) and d['n'] not in _VISITING:
+            _VISITING.add(d['n'])
+            try:
                 defs = [e for e in f.events() if (e['k'] == 'decl' and e['n'] == d['n']) or
                         (e['k'] == 'asg' and isinstance(strip(e['l']), dict) and strip(e['l']).get('k') == 'var'
                          and strip(e['l'])['n'] == d['n'])]
-                decl = [e for e in defs if e['k'] == 'decl' and e.get('init') is not None]
-                others = [e for e in defs if e['k'] == 'asg']
-                plain = [e for e in others if e['op'] == '=']
-                if plain and len(plain) == len(others) and all(x.get('init') is None for x in decl) and depth < 3:
-                    # declared without a value, then only plainly assigned: the union of the assigned values
-                    bs = [_b(f, None, {}, e.get('r'), depth + 1) for e in plain]
-                    lo, hi = max(lo, min(b[0] for b in bs)), min(hi, max(b[1] for b in bs))
-                if len(decl) == 1 and others and all(e['op'] in ('--', '-=') for e in others):
-                    l2, h2 = bounds(f, decl[0], decl[0]['init'], depth + 1)
-                    hi = min(hi, h2)
-                if len(decl) == 1 and others and all(e['op'] in ('++', '+=') for e in others):
-                    l2, h2 = bounds(f, decl[0], decl[0]['init'], depth + 1)
-                    lo = max(lo, l2)
+                byaddr = any(e['k'] == 'call' and any(isinstance(strip(a), dict) and strip(a).get('k') == 'un' and strip(a).get('op') == '&' and
+                                                     isinstance(strip(strip(a)['e']), dict) and strip(strip(a)['e']).get('n') == d['n']
+                                                     for a in (e.get('args') or [])) for e in f.events('call'))
+                vals = [(e, e.get('init')) for e in defs if e['k'] == 'decl' and e.get('init') is not None] + \
+                    [(e, e.get('r')) for e in defs if e['k'] == 'asg' and e['op'] == '=']
+                ops = {e['op'] for e in defs if e['k'] == 'asg' and e['op'] != '='}
+                if vals and not byaddr:
+                    init = f.single_def(d['n'])
+                    if init is not None and not ops:
+                        bs = [_b(f, ev, facts, init, depth + 1)]
+                    else:
+                        # several definitions: the union of what is assigned (flow-insensitive, evaluated without
+                        # the facts of this program point); a definition that leads back here contributes nothing
+                        # (each value is evaluated under the facts of its own definition site)
+                        bs = [_b(f, de, f.facts_at(de), v, depth + 1) for de, v in vals]
+                    bs = [b for b in bs if not (b[0] == INF and b[1] == -INF)]
+                    if not bs and len(_VISITING) > 1:
+                        return INF, -INF        # defined only in terms of a variable under evaluation
+                    if bs:
+                        l2, h2 = min(b[0] for b in bs), max(b[1] for b in bs)
+                        if not ops:
+                            lo, hi = max(lo, l2), min(hi, h2)
+                        elif ops <= {'--', '-='}:
+                            hi = min(hi, h2)
+                        elif ops <= {'++', '+='}:
+                            lo = max(lo, l2)
+            finally:
+                _VISITING.discard(d['n'])
+        elif d.get('vk') == 'local' and d['n'] in _VISITING:
+            return INF, -INF                # cyclic definition: no contribution of its own
         return lo, hi
     if k == 'bin':
         op = d['op']
         l1, h1 = _b(f, ev, facts, d['l'], depth)
         l2, h2 = _b(f, ev, facts, d['r'], depth)
+        if (l1 == INF and h1 == -INF) or (l2 == INF and h2 == -INF):
+            return lo, hi       # arithmetic on a variable that is defined through itself: unknown
         if op == '+':
             return max(lo, l1 + l2), min(hi, h1 + h2)
         if op == '-':
